@@ -61,9 +61,49 @@ def _env_for(ctx: Ctx, unit: FuncUnit, mgr: AObj, adag: AObj, key: str = 'C') ->
             env[name] = adag
         elif t[0] == 'class' and t[1] is ctx.manager_class():
             env[name] = mgr
+        elif _used_as_dag(ctx, fenv, unit, name, dcls):
+            env[name] = adag          # an un-annotated local (loop variable) that is handed on as a dag
         else:
             env[name] = key
     return env
+
+
+def _used_as_dag(ctx: Ctx, fenv: FuncEnv, unit: FuncUnit, name: str, dcls) -> bool:
+    """The local is passed to an in-repo function for a parameter annotated with the dag class."""
+    for c in fenv.own_nodes():
+        if not isinstance(c, ast.Call):
+            continue
+        cands = []
+        for i, a in enumerate(c.args):
+            if isinstance(a, ast.Name) and a.id == name:
+                cands.append(('pos', i))
+        for k in c.keywords:
+            if k.arg is not None and isinstance(k.value, ast.Name) and k.value.id == name:
+                cands.append(('kw', k.arg))
+        if not cands:
+            continue
+        targets = [t[1] for t in fenv.resolve_call(c) if t[0] == 'func']
+        # functools.partial(f, x): the parameters of f
+        if not targets and c.args and (dotted(c.func) or '').split('.')[-1] == 'partial':
+            inner = ast.Call(func=c.args[0], args=c.args[1:], keywords=c.keywords)
+            targets = [t[1] for t in fenv.resolve_call(inner) if t[0] == 'func']
+            cands = [('pos', i - 1) if kind == 'pos' else (kind, i) for kind, i in cands if kind != 'pos' or i >= 1]
+        for tu in targets:
+            a = tu.node.args
+            params = [x for x in getattr(a, 'posonlyargs', []) + a.args]
+            if tu.cls is not None and not tu.is_static and params:
+                params = params[1:]
+            for kind, i in cands:
+                ann = None
+                if kind == 'pos' and i < len(params):
+                    ann = params[i].annotation
+                elif kind == 'kw':
+                    ann = next((x.annotation for x in params + a.kwonlyargs if x.arg == i), None)
+                if ann is not None:
+                    t = ctx.p.ann_to_type(ann, tu.module)
+                    if t and t[0] == 'class' and t[1] is dcls:
+                        return True
+    return False
 
 
 def _eval_bound(interp: Interp, b, env_of) -> Any:
@@ -72,7 +112,7 @@ def _eval_bound(interp: Interp, b, env_of) -> Any:
     raise AnalysisError('abstract interpretation: predicate argument is not an expression')
 
 
-def _run_pred(ctx: Ctx, pred, contents, key='C', dag_nodes=('C', 'O'), stubs=None, graph_spec=None) -> List:
+def _run_pred(ctx: Ctx, pred, contents, key='C', dag_nodes=('C', 'O'), stubs=None, graph_spec=None, dag_flags=None) -> List:
     unit, pre_bound, lexical, extra = pred
 
     def run(oracle: Oracle):
@@ -82,6 +122,8 @@ def _run_pred(ctx: Ctx, pred, contents, key='C', dag_nodes=('C', 'O'), stubs=Non
             graph = AObj(('ext', 'networkx.DiGraph'), {'nodes': {k: dict(v) for k, v in nodes.items()},
                                                        'edges': {k: dict(v) for k, v in edges.items()}})
         mgr, storage, adag = _abstract_world(ctx, contents, dag_nodes, key, graph=graph)
+        if dag_flags:
+            adag.attrs.update(dag_flags)
         if graph_spec is not None:
             # the sub-dag the predicate is evaluated for: the filtered view (no case_branch edges) restricted to its nodes
             nodes, edges = graph_spec
@@ -735,6 +777,49 @@ def rule_ready_vs_active_subgraph(ctx: Ctx, out: Collector) -> None:
                         f'value from a superseded iteration', props={'C03', 'C11'})
     if n == 0:
         raise AnalysisError('no readiness predicate found (RD-2 anchor vanished)')
+
+
+def rule_ready_covers_delivered_inputs(ctx: Ctx, out: Collector) -> None:
+    """RD-9: the argument builder delivers one value per parameter edge of the chart graph, whatever sub-dag the node is
+    launched from.  In a plain (not recurrent, not one-of) scope the readiness predicate must therefore wait for every such
+    predecessor, also for one that is not part of the sub-dag being run (a one-of candidate that was not started when the view
+    was taken): world I -> A -> N, I -> B -> N, the dag being run holds I, A, N only, A has a result, B has none."""
+    n = 0
+    seen = set()
+    for fid, g in ctx.run_graphs().items():
+        for lp, region, wait in launch_loops(ctx, g):
+            if wait is None:
+                continue
+            pred = wait.info.get('pred')
+            if pred is None:
+                raise AnalysisError(f'readiness predicate at {wait.where()} cannot be resolved')
+            unit = pred[0]
+            if unit.fid in seen:
+                continue
+            seen.add(unit.fid)
+            n += 1
+            nodes = {'I': {}, 'A': {}, 'B': {}, 'N': {}}
+            edges = {('I', 'A'): {'kwarg_name': 'num'}, ('I', 'B'): {'kwarg_name': 'num'}, ('A', 'N'): {'kwarg_name': 'a'},
+                     ('B', 'N'): {'kwarg_name': 'b'}}
+            contents = {'node_results': {'I': ('visible', 1), 'A': ('visible', 1)},
+                        'processed_nodes': {'I': ('visible', None), 'A': ('visible', None)}}
+            flags = {'is_recurrent': False, 'is_oneof': False, 'is_nested_oneof': False}
+            try:
+                outs = _run_pred(ctx, pred, contents, key='N', dag_nodes=('I', 'A', 'N'), graph_spec=(nodes, edges), dag_flags=flags)
+            except AnalysisError as ex:
+                raise AnalysisError(f'{unit.fid}: {ex}')
+            vals = sorted({o[1] if o[0] == 'value' else f'raises {o[1]}' for o in outs}, key=str)
+            cons = f'{unit.module.name}::{unit.qualname}::ready(parameter source outside the dag being run) [covers delivered inputs]'
+            if vals == [False]:
+                out.ok('RD-9', cons, wait.where(), 'a plain scope waits for every predecessor that delivers a parameter')
+            else:
+                out.bad('RD-9', cons, wait.where(),
+                        f'readiness is {vals} although a predecessor that delivers a parameter has no result: it is not part of the sub-dag '
+                        f'being run (a one-of candidate filtered out of the view), the readiness test looks at the sub-dag only, the '
+                        f'argument builder at the chart graph - the body is invoked before its input is final and receives None',
+                        props={'C03'})
+    if n == 0:
+        raise AnalysisError('no readiness predicate found (RD-9 anchor vanished)')
 
 
 def rule_kwargs_hidden_verdict(ctx: Ctx, out: Collector) -> None:
